@@ -4,6 +4,8 @@ package validating
 // are checked against exactly these promises in pkg/controller/rollout/zz_verif_c09.go).
 
 import (
+	"strings"
+
 	"context"
 	"fmt"
 
@@ -389,4 +391,54 @@ func VerifC09_AcceptedV1alpha1SpecPromises() {
 	for i := range steps {
 		verifrt.Assert(steps[i].Replicas != nil, "C09.v1alpha1.accepted.everyStepHasReplicas")
 	}
+}
+
+// VerifC09_V1alpha1UpdateImmutableWhileProgressing: the v1alpha1 twin of the update rule.  While the stored Rollout is
+// Progressing or Terminating, an accepted UPDATE leaves the workload reference, the traffic routings and the rolling
+// style as they were — where the style of a v1alpha1 object is what its rolling-style annotation *means*: absent,
+// empty and "canary" (any case) all mean the canary style for a Deployment, "partition" the partition style.  Dropping
+// the annotation from a partition-style Rollout is a style change like any other (the conversion would store
+// EnableExtraWorkloadForCanary = true in the middle of a partition release).
+func VerifC09_V1alpha1UpdateImmutableWhileProgressing() {
+	mk := func(tag string) *appsv1alpha1.Rollout {
+		r := &appsv1alpha1.Rollout{ObjectMeta: metav1.ObjectMeta{Namespace: "ns", Name: "ro"}}
+		r.Spec.ObjectRef.WorkloadRef = &appsv1alpha1.WorkloadRef{APIVersion: "apps/v1", Kind: "Deployment", Name: []string{"w", "w2"}[verifrt.IntRange(tag+".workload", 0, 1)]}
+		switch verifrt.IntRange(tag+".style", 0, 4) {
+		case 1:
+			r.Annotations = map[string]string{}
+		case 2:
+			r.Annotations = map[string]string{appsv1alpha1.RolloutStyleAnnotation: "partition"}
+		case 3:
+			r.Annotations = map[string]string{appsv1alpha1.RolloutStyleAnnotation: "Partition"}
+		case 4:
+			r.Annotations = map[string]string{appsv1alpha1.RolloutStyleAnnotation: "canary"}
+		}
+		w := int32(20)
+		canary := &appsv1alpha1.CanaryStrategy{Steps: []appsv1alpha1.CanaryStep{{TrafficRoutingStrategy: appsv1alpha1.TrafficRoutingStrategy{Weight: &w}}}}
+		canary.TrafficRoutings = []appsv1alpha1.TrafficRoutingRef{{Service: []string{"svc", "svc2"}[verifrt.IntRange(tag+".service", 0, 1)], Ingress: &appsv1alpha1.IngressTrafficRouting{Name: "ing"}}}
+		r.Spec.Strategy.Canary = canary
+		return r
+	}
+	oldObj, newObj := mk("old"), mk("new")
+	latest := oldObj.DeepCopy()
+	phases := []appsv1alpha1.RolloutPhase{appsv1alpha1.RolloutPhaseProgressing, appsv1alpha1.RolloutPhaseTerminating, appsv1alpha1.RolloutPhaseHealthy}
+	latest.Status.Phase = phases[verifrt.IntRange("phase", 0, len(phases)-1)]
+	cli := &symclient.Client{Objects: []client.Object{latest}}
+	h := &RolloutCreateUpdateHandler{Client: cli}
+	errs := h.validateV1alpha1RolloutUpdate(oldObj, newObj)
+	if len(errs) != 0 {
+		verifrt.Cover("denied")
+		return
+	}
+	verifrt.Cover("allowed")
+	if latest.Status.Phase == appsv1alpha1.RolloutPhaseHealthy {
+		return
+	}
+	verifrt.Cover("allowed-while-progressing")
+	partition := func(r *appsv1alpha1.Rollout) bool {
+		return strings.EqualFold(r.Annotations[appsv1alpha1.RolloutStyleAnnotation], "partition")
+	}
+	verifrt.Assert(oldObj.Spec.ObjectRef.WorkloadRef.Name == newObj.Spec.ObjectRef.WorkloadRef.Name, "C09.v1alpha1.update.workloadRefImmutable")
+	verifrt.Assert(oldObj.Spec.Strategy.Canary.TrafficRoutings[0].Service == newObj.Spec.Strategy.Canary.TrafficRoutings[0].Service, "C09.v1alpha1.update.trafficRoutingsImmutable")
+	verifrt.Assert(partition(oldObj) == partition(newObj), "C09.v1alpha1.update.rollingStyleImmutable")
 }
